@@ -507,6 +507,8 @@ macro_rules! impl_io_uring {
                     self.syscall_wait_table.insert(token, arc.clone()).is_none(),
                     "The previous token was not retrieved in a timely manner"
                 );
+                #[cfg(feature = "verif")]
+                crate::verif::pause("uring.between_insert_and_submit");
                 if let Err(e) = self.operator.$syscall(token, $($arg, )*) {
                     _ = self.syscall_wait_table.remove(&token);
                     return Err(e);
